@@ -88,6 +88,8 @@ def whole(expr):
 def parse_guard(text):
     """guard written by a rule ('available < 0', 'not a.b()') -> list of (term, polarity):
     a conjunction (top-level `and` and comparison chains are split)."""
+    if not text.strip():
+        return []                 # the empty conjunction: "unconditionally"
     expr = ast.parse(text, mode="eval").body
     return conj(expr)
 
